@@ -26,6 +26,8 @@ struct Spec {
 #[derive(Debug, Default)]
 struct Parsed {
     flags: Vec<(String, Option<String>)>,
+    /// the argv token each flag was recognised in (parallel to `flags`)
+    raw: Vec<String>,
     positionals: Vec<String>,
 }
 
@@ -57,6 +59,7 @@ fn pflag_parse(args: &[String], spec: &Spec) -> Result<Parsed, String> {
                     out.flags.push((f.0.to_string(), Some(v.clone())));
                 }
             }
+            out.raw.push(a.clone());
         } else if a.len() >= 2 && a.starts_with('-') {
             let chars: Vec<char> = a[1..].chars().collect();
             let mut k = 0;
@@ -65,7 +68,9 @@ fn pflag_parse(args: &[String], spec: &Spec) -> Result<Parsed, String> {
                 k += 1;
                 if f.2 == FK::Bool {
                     out.flags.push((f.0.to_string(), None));
+                    out.raw.push(a.clone());
                 } else {
+                    out.raw.push(a.clone());
                     let rest: String = chars[k..].iter().collect();
                     if !rest.is_empty() {
                         out.flags.push((f.0.to_string(), Some(rest.strip_prefix('=').unwrap_or(&rest).to_string())));
@@ -269,10 +274,18 @@ fn check_pack_build(a: &[String], cfg: &BCfg, o: &trrun::TrOutcome, entry: &Valu
         ensure!(Path::new(paths[0]) == fixture, "C17:app-path", "--path {:?}, fixture {:?}", paths[0], fixture);
     }
     ensure!(flag_values(&p, "cache").len() == 2, "C17:cache-flags", "{:?}", flag_values(&p, "cache"));
-    ensure!(p.flags.iter().any(|f| f.0 == "trust-builder" && f.1.is_none()), "C17:trust-builder", "{a:?}");
-    // no flag other than the expected ones (a user string classified as a flag would show up here)
-    for (n, _) in &p.flags {
-        ensure!(["builder", "path", "pull-policy", "cache", "buildpack", "env", "trust-builder", "trust-extra-buildpacks"].contains(&n.as_str()), "C17:user-string-classified-as-flag", "flag --{n} in {a:?}");
+    // flags the configuration does not explain are tolerated (the tool may pass further options of its own) unless the
+    // token that was classified as a flag is one of the user-supplied strings
+    let mut user: Vec<&String> = vec![&cfg.builder];
+    user.extend(cfg.buildpacks.iter());
+    for (k, v) in &cfg.env {
+        user.push(k);
+        user.push(v);
+    }
+    for ((n, _), raw) in p.flags.iter().zip(&p.raw) {
+        if !["builder", "path", "cache", "buildpack", "env"].contains(&n.as_str()) {
+            ensure!(!user.contains(&raw), "C17:user-string-classified-as-flag", "user string {raw:?} was parsed as flag --{n} in {a:?}");
+        }
     }
     Ok(())
 }
@@ -311,8 +324,10 @@ fn check_docker_run(a: &[String], image: &str, want: &RunWant) -> Check {
     ensure!(p.flags.iter().any(|f| f.0 == "detach") == want.detach, "C17:docker-run-detach", "{a:?}");
     ensure!(p.flags.iter().any(|f| f.0 == "rm") == want.rm, "C17:docker-run-rm", "{a:?}");
     ensure!(flag_values(&p, "name").len() == 1, "C17:docker-run-name", "{a:?}");
-    for (n, _) in &p.flags {
-        ensure!(["name", "detach", "rm", "platform", "entrypoint", "env", "publish", "mount"].contains(&n.as_str()), "C17:user-string-classified-as-flag", "flag --{n} in {a:?}");
+    for ((n, _), raw) in p.flags.iter().zip(&p.raw) {
+        if !["name", "detach", "rm", "entrypoint", "env", "publish", "mount"].contains(&n.as_str()) {
+            ensure!(!want.user_strings.contains(raw), "C17:user-string-classified-as-flag", "user string {raw:?} was parsed as flag --{n} in {a:?}");
+        }
     }
     Ok(())
 }
@@ -325,6 +340,7 @@ struct RunWant {
     mounts: BTreeMap<String, String>,
     detach: bool,
     rm: bool,
+    user_strings: Vec<String>,
 }
 
 fn check(ctx: &Ctx, scratch: &Path, c: &Case) -> Check {
@@ -358,13 +374,13 @@ fn check(ctx: &Ctx, scratch: &Path, c: &Case) -> Check {
                     let detached = p.flags.iter().any(|f| f.0 == "detach");
                     if detached {
                         let cc = containers.next().ok_or_else(|| Fail::new("C17:unexpected-container", format!("{a:?}")))?;
-                        let want = RunWant { entrypoint: cc.entrypoint.clone(), command: cc.command.clone().unwrap_or_default(), env: last_wins(&cc.env), ports: cc.ports.iter().copied().collect(), mounts: cc.mounts.iter().cloned().collect(), detach: true, rm: false };
+                        let want = RunWant { entrypoint: cc.entrypoint.clone(), command: cc.command.clone().unwrap_or_default(), env: last_wins(&cc.env), ports: cc.ports.iter().copied().collect(), mounts: cc.mounts.iter().cloned().collect(), detach: true, rm: false, user_strings: cc.entrypoint.iter().cloned().chain(cc.command.iter().flatten().cloned()).chain(cc.env.iter().flat_map(|(k, v)| [k.clone(), v.clone()])).collect() };
                         check_docker_run(&a, &img, &want)?;
                         let name = flag_values(&p, "name")[0].to_string();
                         pending_exec = Some((cc, name));
                     } else {
                         let cmd = c.run_shell.clone().ok_or_else(|| Fail::new("C17:unexpected-run", format!("{a:?}")))?;
-                        let want = RunWant { entrypoint: Some("launcher".into()), command: vec![cmd], env: BTreeMap::new(), ports: BTreeSet::new(), mounts: BTreeMap::new(), detach: false, rm: true };
+                        let want = RunWant { entrypoint: Some("launcher".into()), command: vec![cmd], env: BTreeMap::new(), ports: BTreeSet::new(), mounts: BTreeMap::new(), detach: false, rm: true, user_strings: c.run_shell.iter().cloned().collect() };
                         check_docker_run(&a, &img, &want)?;
                         seen_run_shell = true;
                     }
@@ -435,7 +451,7 @@ fn nontrivial(c: &Case) -> bool {
 }
 
 pub fn run(ctx: &Ctx) {
-    ctx.set_rule("build configurations (builder name, relative/absolute app path, with/without a preprocessor that adds and removes a file, 0..5 buildpack references, 0..6 env pairs) and 0..2 container configurations (entrypoint, command vector, env, port sets, bind mounts) plus run_shell_command / shell_exec strings and an optional rebuild, with strings weighted towards leading '-'/'--', option look-alikes (--rm, --env, -e, --, --name, --entrypoint=/bin/sh, --trust-builder=false), spaces, '=', quotes, newlines, shell metacharacters, Unicode and the empty string; executed in a worker through TestRunner::build -> start_container / shell_exec / run_shell_command / rebuild with stand-in pack/docker recording argv bytes. Oracle: a reference parser of the pflag grammars of `pack build` (interspersed flags; value flags consume the next token) and `docker run|exec|logs|port|rm|rmi|volume rm` (run/exec stop flag parsing at the first positional) decodes every recorded command line; the decoded builder, app path (fixture itself, or a different directory whose content = fixture + the preprocessor's edits, fixture snapshot unchanged), buildpacks in order, env pairs exactly once, entrypoint, env map, published ports on 127.0.0.1, mounts, image and command vector must equal the configuration, and no flag outside the expected set may appear. Non-trivial: >= 1 user string starts with '-' or contains '=', space or newline, and the configuration has >= 2 env pairs or >= 2 buildpacks; distinct = hash of the case.");
+    ctx.set_rule("build configurations (builder name, relative/absolute app path, with/without a preprocessor that adds and removes a file, 0..5 buildpack references, 0..6 env pairs) and 0..2 container configurations (entrypoint, command vector, env, port sets, bind mounts) plus run_shell_command / shell_exec strings and an optional rebuild, with strings weighted towards leading '-'/'--', option look-alikes (--rm, --env, -e, --, --name, --entrypoint=/bin/sh, --trust-builder=false), spaces, '=', quotes, newlines, shell metacharacters, Unicode and the empty string; executed in a worker through TestRunner::build -> start_container / shell_exec / run_shell_command / rebuild with stand-in pack/docker recording argv bytes. Oracle: a reference parser of the pflag grammars of `pack build` (interspersed flags; value flags consume the next token) and `docker run|exec|logs|port|rm|rmi|volume rm` (run/exec stop flag parsing at the first positional) decodes every recorded command line; the decoded builder, app path (fixture itself, or a different directory whose content = fixture + the preprocessor's edits, fixture snapshot unchanged), buildpacks in order, env pairs exactly once, entrypoint, env map, published ports on 127.0.0.1, mounts, image and command vector must equal the configuration; further flags the tool passes on its own are tolerated, but no user-supplied string may be the token that is classified as such a flag. Non-trivial: >= 1 user string starts with '-' or contains '=', space or newline, and the configuration has >= 2 env pairs or >= 2 buildpacks; distinct = hash of the case.");
     ctx.assume("CSV metacharacters (',', '\"', CR, LF) in --mount paths and --buildpack values, empty buildpack references, env keys containing '=' are outside the domain; the grammar is the harness's transcription of pflag/docker CLI behaviour");
     let scratch = Scratch::new("c17");
     for (_p, v) in ctx.regress_files() {
